@@ -87,6 +87,30 @@ mutual
 end
 
 mutual
+  /-- some unknown (at any depth) satisfies `P`. -/
+  def Kind.anyUnknown (P : Unknown → Bool) : Kind → Bool
+    | .mk _ a o => OCol.anyUnknown P a || OCol.anyUnknown P o
+  def OCol.anyUnknown (P : Unknown → Bool) : OCol → Bool
+    | .none => false
+    | .some c => Col.anyUnknown P c
+  def Col.anyUnknown (P : Unknown → Bool) : Col → Bool
+    | .mk k u => KList.anyUnknown P k || Unknown.anyUnknown P u
+  def KList.anyUnknown (P : Unknown → Bool) : KList → Bool
+    | .nil => false
+    | .cons _ v m => Kind.anyUnknown P v || KList.anyUnknown P m
+  def Unknown.anyUnknown (P : Unknown → Bool) : Unknown → Bool
+    | .exact k => P (.exact k) || Kind.anyUnknown P k
+    | .infinite i => P (.infinite i)
+end
+
+/-- an `Exact(k)` unknown whose `k.is_any()` (which holds for `never` and for every kind with all
+    top-level states, whatever its collections): `Unknown::is_superset` takes it for a superset of
+    every `Infinite`. `Unknown::from(Kind)` never builds it; merging `Exact` unknowns can. -/
+def Unknown.exactIsAny : Unknown → Bool
+  | .exact k => k.isAny
+  | .infinite _ => false
+
+mutual
   /-- the keys of every known map are strictly increasing (what a `BTreeMap` guarantees). -/
   def Kind.SortedK : Kind → Bool
     | .mk _ a o => OCol.SortedK a && OCol.SortedK o
